@@ -44,6 +44,14 @@ class ValueString(FnContract):
     result = 'str'
     frame = 'pure'
 
+    def may_raise(self, K):
+        # CPython refuses to print an int of more than 4300 digits (ValueError); containers holding one fail the same
+        # way inside the JSON encoder (not modelled)
+        v = K.term(0)
+        from pyvc.core import is_int
+        lim = z3.IntVal(10 ** 4300)
+        return [('ValueError', z3.And(is_int(v), z3.Or(V.i(v) >= lim, V.i(v) <= -lim)))]
+
     def post(self, K, out):
         if out.kind == 'return':
             v = K.term(0)
